@@ -624,6 +624,16 @@ def p_interp(name):
     return g
 
 
+def np_clip(ex, args, kw, st):
+    x, lo, hi = args[:3]
+    if isinstance(x, (SArr, SSeq)):
+        raise Unsupported('np.clip of an array')
+    a, l_ = coerce2(x, lo)
+    r = z3.If(a < l_, l_, a)
+    r, h = coerce2(r, hi)
+    return z3.If(r > h, h, r)
+
+
 def np_ndim(ex, args, kw, st):
     v = args[0]
     if isinstance(v, SArr):
@@ -758,6 +768,10 @@ TABLE = {
     'np.count_nonzero': np_count_nonzero, 'np.sum': np_sum, 'np.nansum': np_sum, 'np.any': np_any, 'np.all': np_all,
     'np.diff': np_diff, 'np.argmax': np_argmax_first_true,
     'PchipInterpolator': p_interp('PchipInterpolator'), 'np.ndim': np_ndim,
+    'np.clip': np_clip, 'spline': cl_uf('spline'),
+    'np.deg2rad': p_uf1('deg2rad'), 'deg2rad_': cl_uf('deg2rad'), 'exp_': cl_uf('exp'),
+    'erf_': cl_uf('erf'), 'sin_': cl_uf('sin'), 'cos_': cl_uf('cos'), 'sqrt_': cl_uf('sqrt'),
+    'pi_': None,
     'np.float32': np_identity, 'np.float64': np_identity,
     'warnings.warn': p_warn, 'warnings.simplefilter': p_warn, 'warnings.filterwarnings': p_warn,
     # contract language
@@ -771,6 +785,15 @@ for _e in ('ValueError', 'TypeError', 'IndexError', 'KeyError', 'NotImplementedE
     TABLE[_e] = p_exc(_e)
 
 NUMPY_MODEL = sorted(k for k in TABLE if k.startswith(('np.', 'math.')))
+
+
+def _pi(ex, args, kw, st):
+    pi = z3.Real('pi')
+    st.fact(z3.And(pi > z3.RealVal('3.14159'), pi < z3.RealVal('3.1416')))
+    return pi
+
+
+TABLE['pi_'] = _pi
 
 
 def lookup(name):
